@@ -32,7 +32,9 @@ THEORIES = ['theories/L7Codegen/StepCheck.vo',
             'theories/L7Codegen/DagProofs.vo',
             'theories/L7Codegen/StepProofs.vo',
             'theories/L7Codegen/Render.vo',
-            'theories/L7Codegen/RenderProofs.vo']
+            'theories/L7Codegen/RenderProofs.vo',
+            'theories/L7Codegen/BitsConverse.vo',
+            'theories/L7Codegen/StepProgProofs.vo']
 
 HEADER = '''From Coq Require Import String.
 From Coq Require Import List Bool Arith ZArith NArith.
@@ -146,7 +148,8 @@ def prove(ctx):
         notes, templates = codegen_gen.ensure_codegen(ctx)
         ctx.prove_with_deps('Properties/C13.v')
     _count_theory_lemmas(ctx, ['BitsProofs', 'DagProofs', 'StepProofs',
-                               'RenderProofs'])
+                               'RenderProofs', 'BitsConverse',
+                               'StepProgProofs'])
     ctx.extra['languages_table'] = langs
     ctx.extra['syntax_keys_used'] = used
     ctx.extra['translation'] = dict(
